@@ -75,6 +75,26 @@ func compileModes(name string, load func() (*core.Spec, error), precompiled bool
 		}
 	}
 	out = append(out, variant{name + "/reloaded", s3, err3})
+	// compiled once without force (nothing has been built yet, so everything must be)
+	if !precompiled {
+		s4, err4 := load()
+		if err4 == nil {
+			err4 = s4.Compile(ctx, nil, false)
+		}
+		out = append(out, variant{name + "/unforced", s4, err4})
+		// ... and reloaded, then compiled without force
+		if err3 == nil && s3 != nil {
+			js, e := json.Marshal(s3)
+			var r core.Spec
+			if e == nil {
+				e = json.Unmarshal(js, &r)
+			}
+			if e == nil {
+				e = r.Compile(ctx, nil, false)
+			}
+			out = append(out, variant{name + "/reloaded-unforced", &r, e})
+		}
+	}
 	return out
 }
 
@@ -236,6 +256,25 @@ func variants(a *ref.ASpec, dir string, idx int) []variant {
 			return c, err
 		}, true)...)
 	}
+	// native node actions with guards given as source, compiled with and without force: the
+	// guards have not been built, whatever the state of the node's action.  (Compared with
+	// each other: native and interpreted actions word their errors differently.)
+	mixed := func() *core.Spec {
+		s := a.Core(false, ref.NativeNilErr)
+		nat := a.Core(true, ref.NativeNilErr)
+		for name, n := range s.Nodes {
+			if nn := nat.Nodes[name]; nn != nil && nn.Action != nil {
+				n.Action = nn.Action
+				n.ActionSource = nil
+			}
+		}
+		return s
+	}
+	for _, force := range []bool{true, false} {
+		s := mixed()
+		err := s.Compile(context.Background(), nil, force)
+		vs = append(vs, variant{fmt.Sprintf("mixed-native-actions-source-guards/force=%v", force), s, err})
+	}
 	// the names under which the standard interpreter map (what mdb, mexpect and sheensio
 	// use) offers the ECMAScript interpreter: a spec naming any of them is the same spec
 	for _, alias := range interpreterAliases {
@@ -371,6 +410,7 @@ func Run(cfg fw.Config, rec *fw.Rec) {
 		replay := map[string]interface{}{"spec": a, "state": bs, "messages": msgs}
 		vs := variants(a, cfg.WorkDir, i)
 		var baseTrace, baseName string
+		var mixedTrace, mixedName string
 		ok := true
 		for _, v := range vs {
 			rec.Eval(1)
@@ -388,6 +428,15 @@ func Run(cfg fw.Config, rec *fw.Rec) {
 			if strings.Contains(tr, "uncompiled action") || strings.Contains(tr, "interpreter not found") || strings.Contains(tr, "not compiled") {
 				rec.Violation("C13:compile-problem-at-run-time", "a compiled variant reports a compilation problem at run time: "+fw.Short(tr), map[string]interface{}{"case": replay, "variant": v.Name})
 				ok = false
+				continue
+			}
+			if strings.HasPrefix(v.Name, "mixed-native") {
+				if mixedName == "" {
+					mixedTrace, mixedName = tr, v.Name
+				} else if tr != mixedTrace {
+					rec.Violation("C13:variant-behaves-differently:"+v.Name, fmt.Sprintf("%s and %s behave differently:\n %s\n %s", mixedName, v.Name, fw.Short(mixedTrace), fw.Short(tr)), map[string]interface{}{"case": replay, "variant": v.Name})
+					ok = false
+				}
 				continue
 			}
 			if baseName == "" {
